@@ -27,7 +27,7 @@ CONSTANTS Bodies,     \* the request bodies explored (see MC_Spans)
           Limit       \* parserDoer: p.attrs.Size+p.spans.Size > 1 MiB -> intermediate response (in size units of 64 KiB)
 
 VARIABLES body,       \* the request body (constant along a behaviour)
-          pc,         \* "start" | "keys" | "next" | "eof" | "done" | "rejected"
+          pc,         \* "start" | "keys" | "next" | "done" | "rejected"
           i,          \* number of spans (array elements / lines / OTLP spans) entered so far
           j,          \* number of JSON members of span i consumed so far (Zipkin)
           z,          \* the zipkinDecoderV2 struct
@@ -84,11 +84,12 @@ ZKey(zz, s, key, tsKind) ==
     [] key = "name"      -> [zz EXCEPT !.name = s.name, !.kv = Append(@, Tag(<<"name">>, TV("str", s.name)))]
     [] key = "localEndpoint" ->
          LET ep == ParseEndpoint(s.local, "local_endpoint_service_name")
-         IN  [zz EXCEPT !.kv = @ \o ep.kv, !.svc = ep.svc]
+         IN  [zz EXCEPT !.kv = @ \o ep.kv,
+                        !.svc = IF ep.svc # "" THEN ep.svc ELSE @]     \* a named local endpoint always wins
     [] key = "remoteEndpoint" ->
          LET ep == ParseEndpoint(s.remote, "remote_endpoint_service_name")
          IN  [zz EXCEPT !.kv = @ \o ep.kv,
-                        !.svc = IF zz.svc # "" THEN ep.svc ELSE @]     \* `if z.serviceName != ""' as written
+                        !.svc = IF zz.svc = "" THEN ep.svc ELSE @]     \* `if z.serviceName == ""': the fallback
     [] key = "tags"      -> [zz EXCEPT !.kv = @ \o [k \in DOMAIN s.tags |-> Tag(<<s.tags[k].k>>, TV("str", s.tags[k].v))]]
     [] OTHER             -> zz                                           \* default: d.Skip()
 
@@ -126,21 +127,19 @@ PopulateServiceNames(attrs) ==
       a1 == IF GetAttr(attrs, "service.name").found THEN attrs ELSE Append(attrs, KV("service.name", StrV(n.local)))
   IN  IF GetAttr(a1, "remoteService.name").found THEN a1 ELSE Append(a1, KV("remoteService.name", StrV(n.remote)))
 
-(* writeAttrValue(key, val any, prefix, res): a type switch over the oneof WRAPPER types.  `lvl' is the Go type of *)
-(* the argument: "oneof" (kv.Value.Value) or "any" (a *AnyValue, which no case of the switch matches).            *)
+(* writeAttrValue(key, val any, prefix, res): a type switch over the oneof WRAPPER types; it is always handed the   *)
+(* oneof (kv.Value.Value for an attribute, _val.GetValue() for a list element).                                   *)
 IdxStr(n) == ToString(n)
-RECURSIVE WriteAttrValue(_, _, _, _), InitAttributesMap(_, _)
-WriteAttrValue(key, v, lvl, prefix) ==
-  IF lvl = "any" THEN <<>>
-  ELSE CASE v.t = "str"    -> <<Tag(Append(prefix, key), TV("str", v.a))>>
-         [] v.t = "bool"   -> <<Tag(Append(prefix, key), TV("bool", v.a))>>       \* %v
-         [] v.t = "double" -> <<Tag(Append(prefix, key), TV("f6", v.a))>>         \* %f
-         [] v.t = "int"    -> <<Tag(Append(prefix, key), TV("int", v.a))>>        \* %d
-         [] v.t = "list"   -> Flat([k \in DOMAIN v.e |->                            \* passes _val, not _val.Value
-                                    WriteAttrValue(IdxStr(k - 1), v.e[k], "any", Append(prefix, key))])
-         [] v.t = "map"    -> InitAttributesMap(v.kv, Append(prefix, key))
-         [] OTHER          -> <<>>
-InitAttributesMap(kvs, prefix) == Flat([k \in DOMAIN kvs |-> WriteAttrValue(kvs[k].k, kvs[k].v, "oneof", prefix)])
+RECURSIVE WriteAttrValue(_, _, _), InitAttributesMap(_, _)
+WriteAttrValue(key, v, prefix) ==
+  CASE v.t = "str"    -> <<Tag(Append(prefix, key), TV("str", v.a))>>
+    [] v.t = "bool"   -> <<Tag(Append(prefix, key), TV("bool", v.a))>>       \* %v
+    [] v.t = "double" -> <<Tag(Append(prefix, key), TV("f6", v.a))>>         \* %f
+    [] v.t = "int"    -> <<Tag(Append(prefix, key), TV("int", v.a))>>        \* %d
+    [] v.t = "list"   -> Flat([k \in DOMAIN v.e |-> WriteAttrValue(IdxStr(k - 1), v.e[k], Append(prefix, key))])
+    [] v.t = "map"    -> InitAttributesMap(v.kv, Append(prefix, key))
+    [] OTHER          -> <<>>
+InitAttributesMap(kvs, prefix) == Flat([k \in DOMAIN kvs |-> WriteAttrValue(kvs[k].k, kvs[k].v, prefix)])
 
 (* a Go map filled in sequence: the last assignment per key survives; iteration order is irrelevant here *)
 MapOf(assigns) == {assigns[k] : k \in {m \in DOMAIN assigns : \A n \in DOMAIN assigns : n > m => assigns[n].k # assigns[m].k}}
@@ -177,17 +176,12 @@ ZArrElem == /\ IsZ("array") /\ More
             /\ i' = i + 1 /\ j' = 0 /\ pc' = "keys"
             /\ z' = [ZInit EXCEPT !.payload = i + 1]
             /\ UNCHANGED <<body, cur, sent>>
-(* zipkinNDDecoderV2.Decode: scanner.Scan() delivers a line; decodeSpan is called on the SAME decoder struct,     *)
-(* nothing is reset and z.payload is never assigned                                                              *)
+(* zipkinNDDecoderV2.Decode: scanner.Scan() delivers a line of any length (the scanner buffer grows with it); the  *)
+(* same reset as for an array element, a copy of the line is the payload                                         *)
 ZNdLine == /\ IsZ("ndjson") /\ More
-           /\ body.spans[i + 1].big = 0
            /\ i' = i + 1 /\ j' = 0 /\ pc' = "keys"
-           /\ UNCHANGED <<body, z, cur, sent>>
-(* a line longer than bufio.MaxScanTokenSize (64 KiB): Scan() returns false, scanner.Err() is never consulted *)
-ZNdTooLong == /\ IsZ("ndjson") /\ More
-              /\ body.spans[i + 1].big > 0
-              /\ pc' = "eof"
-              /\ UNCHANGED <<body, i, j, z, cur, sent>>
+           /\ z' = [ZInit EXCEPT !.payload = i + 1]
+           /\ UNCHANGED <<body, cur, sent>>
 (* one member of the span object *)
 ZKeyStep == /\ pc = "keys" /\ j < Len(body.spans[i].order)
             /\ j' = j + 1
@@ -210,12 +204,11 @@ OSpan == /\ body.proto = "otlp" /\ More
          /\ i' = i + 1
          /\ UNCHANGED <<body, j, z>>
 (* Decode returned nil: the final ParserResponse *)
-Finish == /\ \/ pc = "eof"
-             \/ pc \in {"start", "next"} /\ i = NSpans(body)
+Finish == /\ pc \in {"start", "next"} /\ i = NSpans(body)
           /\ sent' = Append(sent, cur) /\ cur' = EmptyReq
           /\ pc' = "done"
           /\ UNCHANGED <<body, i, j, z>>
-Next == ZArrElem \/ ZNdLine \/ ZNdTooLong \/ ZKeyStep \/ ZSpanEnd \/ OSpan \/ Finish
+Next == ZArrElem \/ ZNdLine \/ ZKeyStep \/ ZSpanEnd \/ OSpan \/ Finish
 Spec == Init /\ [][Next]_vars
 
 ----------------------------------------------------------------------------------------------------------------
@@ -231,13 +224,13 @@ ZSpanAttrs(s) ==
       svc == IF named("localEndpoint", s.local) THEN s.local
              ELSE IF named("remoteEndpoint", s.remote) THEN s.remote ELSE ""
   IN  tags \o ep("localEndpoint", s.local) \o ep("remoteEndpoint", s.remote) \o <<KV("service.name", StrV(svc))>>
-(* parseZipkinJSON: ids and times from the row, the rest from the payload; decodeParentId drops a hex string     *)
-(* shorter than 16 digits                                                                                       *)
+(* parseZipkinJSON: ids and times from the row, the rest from the payload; decodeParentId left-pads a hex string   *)
+(* shorter than 16 digits like the writer does                                                                  *)
 ParseZipkin(row) ==
   IF row.payload = 0 THEN [ok |-> FALSE]
   ELSE LET s == body.spans[row.payload]
        IN  [ok |-> TRUE, tid |-> row.tid, sid |-> row.sid,
-            parent |-> IF Present(s, "parentId") /\ Len(s.parent) = W THEN s.parent ELSE <<>>,
+            parent |-> IF Present(s, "parentId") /\ s.parent # <<>> THEN DecodeHex(s.parent) ELSE <<>>,
             name |-> IF Present(s, "name") THEN s.name ELSE "",
             start |-> row.ts, end |-> row.ts + row.dur, attrs |-> ZSpanAttrs(s)]
 (* parseOTLP: firstLevelMap keeps the last attribute per key; "service.name" is REPLACED by the first non-empty   *)
@@ -275,7 +268,9 @@ Flatten(key, v, prefix) ==
 FlattenAll(attrs) == UNION {Flatten(attrs[k].k, attrs[k].v, <<>>) : k \in DOMAIN attrs}
 
 ZEpName(s, key, e) == IF Present(s, key) /\ e # NoName THEN e ELSE ""
-ZSvc(s) == ZEpName(s, "localEndpoint", s.local)                 \* a Zipkin span's service is its local endpoint's
+(* a Zipkin span's service is its local endpoint's; a span without a named local endpoint goes by its remote one   *)
+(* (what the read path, parseZipkinJSON, reports as the span's service)                                          *)
+ZSvc(s) == IF ZEpName(s, "localEndpoint", s.local) # "" THEN s.local ELSE ZEpName(s, "remoteEndpoint", s.remote)
 ZDef(n) ==
   LET s == body.spans[n]
       name == IF Present(s, "name") THEN s.name ELSE ""
@@ -364,7 +359,7 @@ InvCleanDecoder == (pc = "keys" /\ j = 0) => (z.kv = <<>> /\ z.parent = <<>> /\ 
 
 (* every body of the families is well formed: none is rejected *)
 InvAccepted == pc # "rejected"
-TypeOK == /\ pc \in {"start", "keys", "next", "eof", "done", "rejected"}
+TypeOK == /\ pc \in {"start", "keys", "next", "done", "rejected"}
           /\ i \in 0..NSpans(body) /\ j \in 0..16
           /\ cur.size <= Limit
 =============================================================================
